@@ -118,7 +118,7 @@ EXPORT errno_t _strcspn_s_chk(const char *dest, rsize_t dmax, const char *src,
         return (RCNEGATE(EOVERFLOW));
     }
 
-    while (*dest && dmax) {
+    while (dmax && *dest) {
 
         /*
          * Scanning for exclusions, so if there is a match,
@@ -126,7 +126,7 @@ EXPORT errno_t _strcspn_s_chk(const char *dest, rsize_t dmax, const char *src,
          */
         smax = slen;
         scan2 = src;
-        while (*scan2 && smax) {
+        while (smax && *scan2) {
 
             if (*dest == *scan2) {
                 return RCNEGATE(EOK);
